@@ -3,9 +3,11 @@
 From Coq Require Import Bool List NArith ZArith Lia.
 From M Require Dispatch.
 From M Require Undefined.
+From M Require Undef113.
 From M Require Dispatch.
 From M Require Framing2.
 From M Require ParserModel.
+From M Require Undefined.
 Import ListNotations.
 
 Module T_dispatch_closed. Import Dispatch. Local Open Scope bool_scope. Local Open Scope Z_scope.
@@ -77,4 +79,26 @@ Theorem C02_undefined_text_as_written :
 Proof. exact (@Undefined.undefined_text_as_written). Qed.
 End T_undefined_text_as_written.
 Definition C02_undefined_text_as_written := @T_undefined_text_as_written.C02_undefined_text_as_written.
+
+Module T_units_accounted. Import Undef113. Local Open Scope bool_scope. Local Open Scope Z_scope.
+Import ParserModel Framing2 Dispatch Undefined. Local Open Scope Z_scope.
+Theorem C02_units_accounted :
+  forall c len d,
+  0 <= len <= Z.of_nat (length (mem c)) -> table_no113 c ->
+  let c' := fst (scpi_parse c len d) in
+  (n113 (trace c') + length (hdrs (trace c')) = n113 (trace c) + length (hdrs (trace c)) + nvalid (S (Z.to_nat len)) (slice (mem c) 0 len))%nat.
+Proof. exact (@Undef113.units_accounted). Qed.
+End T_units_accounted.
+Definition C02_units_accounted := @T_units_accounted.C02_units_accounted.
+
+Module T_undefined_count. Import Undef113. Local Open Scope bool_scope. Local Open Scope Z_scope.
+Import ParserModel Framing2 Dispatch Undefined. Local Open Scope Z_scope.
+Theorem C02_undefined_count :
+  forall c len d,
+  0 <= len <= Z.of_nat (length (mem c)) -> table_no113 c ->
+  let c' := fst (scpi_parse c len d) in
+  (n113 (trace c') + length (spec_units (S (Z.to_nat len)) (mem c) (cmds c) 0 len None) = n113 (trace c) + nvalid (S (Z.to_nat len)) (slice (mem c) 0 len))%nat.
+Proof. exact (@Undef113.undefined_count). Qed.
+End T_undefined_count.
+Definition C02_undefined_count := @T_undefined_count.C02_undefined_count.
 
